@@ -789,16 +789,26 @@ def r16_11(U, rep, envs):
 class _Relabel:
   """Forwards obligations to a report under another rule label (a rule shared with another property)."""
 
-  def __init__(self, rep, rule):
-    self.rep, self.rule = rep, rule
+  def __init__(self, rep, rule, only=None):
+    # only: forward just the obligations of these original rules (a function that decides several rules at once)
+    self.rep, self.rule, self.only, self.failed = rep, rule, only, 0
 
   def ok(self, rule, key, *a, **k):
+    if self.only is not None and rule not in self.only:
+      return None
     return self.rep.ok(self.rule, '%s %s' % (rule, key), *a, **k)
 
   def fail(self, rule, key, *a, **k):
+    if self.only is not None and rule not in self.only:
+      return None
+    self.failed += 1
     return self.rep.fail(self.rule, '%s %s' % (rule, key), *a, **k)
 
   def check(self, cond, rule, key, *a, **k):
+    if self.only is not None and rule not in self.only:
+      return cond
+    if not cond:
+      self.failed += 1
     return self.rep.check(cond, self.rule, '%s %s' % (rule, key), *a, **k)
 
   def note(self, m):
